@@ -96,11 +96,13 @@ where
         let l = self.shape;
 
         let v: F = rng.sample(StandardNormal);
-        let y = mu * v * v;
 
-        let mu_2l = mu / (F::from(2.).unwrap() * l);
-
-        let x = mu + mu_2l * (y - (F::from(4.).unwrap() * l * y + y * y).sqrt());
+        // Smaller root of the Michael-Schucany-Haas quadratic, mu * (1 + a - sqrt(a^2 + 2a)) with
+        // a = mu v^2 / (2 lambda), in the rationalised form mu / (1 + a + sqrt(a^2 + 2a)): the
+        // textbook form cancels catastrophically for large a (relative error ~ a^2 eps).
+        let two = F::from(2.).unwrap();
+        let a = mu / (two * l) * v * v;
+        let x = mu / (F::one() + a + (a * a + two * a).sqrt());
 
         let u: F = rng.random();
 
